@@ -48,6 +48,9 @@ func vShapeRel(capacity, pad int, withFree bool, emptied int) *vWorld {
 	W.create([]int{cR1, cA}, h1, Entity{})
 	W.create([]int{cR1, cR2}, h0, h1)
 	W.create([]int{cR1, cR2}, h1, Entity{})
+	// a two-relation archetype whose relation columns are NOT the first columns (A sorts first)
+	W.create([]int{cA, cR1, cR2}, h1, h0)
+	W.create([]int{cA, cR1, cR2}, h0, h0)
 	if withFree {
 		p2 := W.create([]int{cA}, Entity{}, Entity{})
 		c := W.create([]int{cR1, cA}, W.e[p2].h, Entity{})
